@@ -4,6 +4,7 @@ package main
 
 import (
 	"fmt"
+	"go/constant"
 	"go/token"
 	"go/types"
 	"os"
@@ -2563,4 +2564,274 @@ func checkLedgerFullWidth(r *Run) {
 		fail("C17.ledger: only %d keeper/account methods scanned", n)
 	}
 	r.OK("C17.ledger", "", itoa(int64(n))+" keeper/account methods", "no 64-bit narrowing of a balance (Int64 / Uint64): zero and ordering tests use the full number")
+}
+
+// ---- C18.rangepair --------------------------------------------------------------------------------------------------
+//
+// The option validators test each figure against a (min, max) pair of package constants. The two bounds of one test must
+// be the minimum and the maximum of the same option: their names differ only in min/max. A minimum borrowed from another
+// option (0 instead of 1 for the per-block fee) admits a value the handlers later divide by.
+func boundName(v ssa.Value) string {
+	for d := 0; d < 4; d++ {
+		switch x := v.(type) {
+		case *ssa.UnOp:
+			v = x.X
+			continue
+		case *ssa.Global:
+			return x.Name()
+		}
+		break
+	}
+	return ""
+}
+
+func boundStem(name string) (stem, kind string) {
+	l := strings.ToLower(name)
+	for _, k := range []string{"min", "max"} {
+		if strings.HasPrefix(l, k) {
+			return l[3:], k
+		}
+		if strings.HasSuffix(l, k) {
+			return l[:len(l)-3], k
+		}
+	}
+	return "", ""
+}
+
+// nearlyEqual: equal up to one inserted, deleted or replaced character (the constants contain a spelling slip).
+func nearlyEqual(a, b string) bool {
+	if a == b {
+		return true
+	}
+	if len(a) > len(b) {
+		a, b = b, a
+	}
+	if len(b)-len(a) > 1 {
+		return false
+	}
+	i := 0
+	for i < len(a) && a[i] == b[i] {
+		i++
+	}
+	if len(a) == len(b) {
+		return a[i+1:] == b[i+1:]
+	}
+	return a[i:] == b[i+1:]
+}
+
+func checkRangePairs(r *Run) {
+	p := r.P
+	n := 0
+	for _, fn := range sortedFns(p.Fns) {
+		if pk := fnPkg(fn); pk == nil || pk.Path() != Mod+"/data/governance" || fn.Blocks == nil {
+			continue
+		}
+		allInstrs(fn, func(ins ssa.Instruction) {
+			c, ok := ins.(*ssa.Call)
+			if !ok {
+				return
+			}
+			var lo, hi ssa.Value
+			switch calleeName(c) {
+			case "(*data/balance.Amount).CheckInRange":
+				lo, hi = c.Call.Args[1], c.Call.Args[2]
+			case "data/governance.verifyRangeInt64":
+				lo, hi = c.Call.Args[1], c.Call.Args[2]
+			default:
+				return
+			}
+			ln, hn := boundName(lo), boundName(hi)
+			ls, lk := boundStem(ln)
+			hs, hk := boundStem(hn)
+			if lk == "" || hk == "" {
+				return // a bound that is not one of the named min/max constants
+			}
+			n++
+			r.Check(lk == "min" && hk == "max" && nearlyEqual(ls, hs), "C18.rangepair", fname(fn), "range test against "+ln+" / "+hn, "lower bound = the option's min constant, upper bound = the same option's max constant",
+				"the range test at "+p.ipos(c)+" takes its bounds from two different options ("+ln+", "+hn+") or in the wrong order: a value outside the option's own range is accepted (a zero per-block fee, a zero divisor of a percentage) and the handlers that divide by it crash", p.ipos(c))
+		})
+	}
+	if n < 15 {
+		fail("C18.rangepair: only %d range tests with named bounds found", n)
+	}
+}
+
+// ---- C18.slice ------------------------------------------------------------------------------------------------------
+//
+// In the cross-chain parsers (fed with bytes taken from a transaction) every slice expression with a constant upper bound
+// needs, on all paths, a length test that implies len(value) >= bound. The implication is decided over linear forms
+// (sums of lengths, indices and constants): len(X[lo:]) is len(X) - lo, a test `a < b` gives b - a - 1 >= 0 on its true
+// edge and a - b >= 0 on its false edge, and a test discharges the requirement when requirement - test is a non-negative
+// constant. Anything the normaliser cannot express stays a symbol, so an insufficient or unrelated test leaves the
+// requirement open — it is never assumed.
+type linForm struct {
+	coef map[string]int64
+	k    int64
+}
+
+func (a linForm) add(b linForm, sign int64) linForm {
+	res := linForm{coef: map[string]int64{}, k: a.k + sign*b.k}
+	for s, c := range a.coef {
+		res.coef[s] += c
+	}
+	for s, c := range b.coef {
+		res.coef[s] += sign * c
+	}
+	for s, c := range res.coef {
+		if c == 0 {
+			delete(res.coef, s)
+		}
+	}
+	return res
+}
+
+func linKey(v ssa.Value) string {
+	v = resolveLoad(v)
+	pa := pathOf(v)
+	if len(pa.Fields) > 0 || len(pa.Indices) > 0 {
+		return fmt.Sprintf("%p.%s", pa.Root, pa.String())
+	}
+	return fmt.Sprintf("%p", v)
+}
+
+func linOf(v ssa.Value, depth int) linForm {
+	if k, ok := intConst(v); ok {
+		return linForm{coef: map[string]int64{}, k: k}
+	}
+	if depth < 8 {
+		switch x := v.(type) {
+		case *ssa.BinOp:
+			switch x.Op {
+			case token.ADD:
+				return linOf(x.X, depth+1).add(linOf(x.Y, depth+1), +1)
+			case token.SUB:
+				return linOf(x.X, depth+1).add(linOf(x.Y, depth+1), -1)
+			}
+		case *ssa.Convert:
+			if b, ok := x.X.Type().Underlying().(*types.Basic); ok && b.Info()&types.IsInteger != 0 {
+				return linOf(x.X, depth+1)
+			}
+		case *ssa.Call:
+			if b, ok := x.Call.Value.(*ssa.Builtin); ok && b.Name() == "len" {
+				arg := resolveLoad(x.Call.Args[0])
+				if sl, isSl := arg.(*ssa.Slice); isSl && sl.High == nil && sl.Max == nil {
+					if _, isArr := sl.X.Type().Underlying().(*types.Pointer); !isArr {
+						base := linForm{coef: map[string]int64{"len:" + linKey(sl.X): 1}}
+						if sl.Low != nil {
+							return base.add(linOf(sl.Low, depth+1), -1)
+						}
+						return base
+					}
+				}
+				if c, isC := arg.(*ssa.Const); isC && c.Value != nil && c.Value.Kind() == constant.String {
+					return linForm{coef: map[string]int64{}, k: int64(len(constant.StringVal(c.Value)))}
+				}
+				return linForm{coef: map[string]int64{"len:" + linKey(arg): 1}}
+			}
+		}
+	}
+	return linForm{coef: map[string]int64{linKey(v): 1}}
+}
+
+// impliedBy: requirement R >= 0 follows from G >= 0 (R - G is a non-negative constant).
+func (r linForm) impliedBy(g linForm) bool {
+	d := r.add(g, -1)
+	return len(d.coef) == 0 && d.k >= 0
+}
+
+func checkSliceBounds(r *Run, pkgs ...string) {
+	p := r.P
+	n := 0
+	inPkgs := func(fn *ssa.Function) bool {
+		pk := fnPkg(fn)
+		if pk == nil {
+			return false
+		}
+		for _, s := range pkgs {
+			if pk.Path() == Mod+s {
+				return true
+			}
+		}
+		return false
+	}
+	for _, fn := range sortedFns(p.Fns) {
+		if !inPkgs(fn) || fn.Blocks == nil {
+			continue
+		}
+		allInstrs(fn, func(ins ssa.Instruction) {
+			sl, ok := ins.(*ssa.Slice)
+			if !ok {
+				return
+			}
+			if _, isArr := sl.X.Type().Underlying().(*types.Pointer); isArr {
+				return // slicing an array: bounds are compile-time facts
+			}
+			var need int64 = -1
+			if sl.High != nil {
+				if k, isK := intConst(sl.High); isK {
+					need = k
+				}
+			}
+			if need < 0 && sl.Low != nil {
+				if k, isK := intConst(sl.Low); isK && k > 0 {
+					need = k
+				}
+			}
+			if need <= 0 {
+				return
+			}
+			n++
+			req := linForm{coef: map[string]int64{"len:" + linKey(sl.X): 1}, k: -need}
+			if inner, isSl := resolveLoad(sl.X).(*ssa.Slice); isSl && inner.High == nil && inner.Max == nil {
+				if _, isArr := inner.X.Type().Underlying().(*types.Pointer); !isArr {
+					req = linForm{coef: map[string]int64{"len:" + linKey(inner.X): 1}, k: -need}
+					if inner.Low != nil {
+						req = req.add(linOf(inner.Low, 0), -1)
+					}
+				}
+			}
+			var pass []Edge
+			for _, b := range fn.Blocks {
+				iff := blockIf(b)
+				if iff == nil {
+					continue
+				}
+				cond, flip := stripNot(iff.Cond)
+				bo, isB := cond.(*ssa.BinOp)
+				if !isB {
+					continue
+				}
+				x, y := linOf(bo.X, 0), linOf(bo.Y, 0)
+				one := linForm{coef: map[string]int64{}, k: 1}
+				var onTrue, onFalse linForm
+				switch bo.Op {
+				case token.LSS: // x < y : y-x-1 >= 0 ; else x-y >= 0
+					onTrue, onFalse = y.add(x, -1).add(one, -1), x.add(y, -1)
+				case token.LEQ:
+					onTrue, onFalse = y.add(x, -1), x.add(y, -1).add(one, -1)
+				case token.GTR:
+					onTrue, onFalse = x.add(y, -1).add(one, -1), y.add(x, -1)
+				case token.GEQ:
+					onTrue, onFalse = x.add(y, -1), y.add(x, -1).add(one, -1)
+				default:
+					continue
+				}
+				if flip {
+					onTrue, onFalse = onFalse, onTrue
+				}
+				if req.impliedBy(onTrue) {
+					pass = append(pass, Edge{From: b, Succ: 0})
+				}
+				if req.impliedBy(onFalse) {
+					pass = append(pass, Edge{From: b, Succ: 1})
+				}
+			}
+			okv := len(pass) > 0 && !reachWithout(fn, pass)[sl.Block()]
+			r.Check(okv, "C18.slice", fname(fn), "slice up to "+itoa(need)+" behind a sufficient length test", "a test implying len(value) >= "+itoa(need)+" on every path to the slice expression (decided over linear forms)",
+				"the slice expression at "+p.ipos(sl)+" needs "+itoa(need)+" elements, and no length test in front of it implies that many: a transaction whose embedded bytes are shorter there makes the parser panic (slice bounds out of range) inside CheckTx/DeliverTx, which closes the application", p.ipos(sl))
+		})
+	}
+	if n < 5 {
+		fail("C18.slice: only %d constant-bound slice expressions found in the parser packages", n)
+	}
 }
